@@ -11,7 +11,7 @@ CHECKS = {
         deep=True,      # the thorough tier adds --deep (larger searches, see bounds)
         level="model_checking",
         runs=[dict(name="heap", target="h_heap", args=[], quick=[], thorough=[])],
-        deadline=dict(quick=150, thorough=900),
+        deadline=dict(quick=300, thorough=1350),
         bounds=dict(
             quick="heap: keys {0,1,2}, <=12 elements, ptrheap_create from every array of <=5 keys, all of add/getmin/deletemin/"
                   "delete(handle)/increase(handle)/decrease(handle)/increasemin/add-with-dead-allocator-then-retry from every state (with and without record-cookie "
